@@ -23,6 +23,13 @@ def run(ctx):
     rng = random.Random(ctx.seed + 31)
     mods = ds.modules(ctx, rng, 1 if ctx.tier == "quick" else 4)
     mods.append((os.path.join(common.VERIF, "corpus", "c17"), False))      # templ component functions (finding F18)
+    # generated programs of the core fragment, interfaces and the error convention in every spelling of the
+    # conditions (literals on either side, negations, switches): the forms the preprocessing rewrites
+    from . import progfuzz as PF
+    d = ctx.scratch()
+    cases = PF.gen_cases(rng, 45 if ctx.tier == "quick" else 300, streams=("random", "iface", "err"), prefix="r")
+    PF.write_module(d, {c.name: c.prog for c in cases}, {c.name: random.Random(rng.random()) for c in cases})
+    mods.append((d, True))
     extra = []
     if ctx.tier == "thorough":
         extra = [(common.REPO, ["./inference/...", "./diagnostic/...", "./annotation/...", "./assertion/function/preprocess/..."])]
